@@ -10,6 +10,7 @@
 import SnowProofs.Lemmas.Snowing2D
 import SnowProofs.Lemmas.Stencil1D
 import SnowProofs.Lemmas.RunBounds
+import SnowProofs.Lemmas.DefaultLink
 import SnowProofs.Props.C02
 import Mathlib.Tactic.NormNum
 import Mathlib.Tactic.Positivity
@@ -548,6 +549,87 @@ theorem maxprinciple1D_cool_run (p : SnowIn ℝ) (g : Grid1D ℝ) (stride : Nat)
       simpa [coolStep1D] using this)
     k hk
   exact (h (by omega)).1
+
+/-- **published rows, 1D cooling stage**: every row saved so far lies in `[lo, hi]` (°C) -/
+theorem maxprinciple1D_cool_rows (p : SnowIn ℝ) (g : Grid1D ℝ) (stride : Nat) (hv : p.visf = none)
+    (hNz : 2 ≤ g.Nz) (hfo : 0 ≤ g.fo ∧ g.fo ≤ 1 / 2)
+    (hbi : 0 ≤ p.Kshelf * g.dz / g.lam0 ∧ p.Kshelf * g.dz / g.lam0 ≤ 1)
+    (shelf : List ℝ) (lo hi : ℝ) (K : Nat) (h0 : lo ≤ p.T_0 ∧ p.T_0 ≤ hi)
+    (hsh : ∀ j (hj : j < shelf.length), j ≤ K → lo ≤ shelf[j] ∧ shelf[j] ≤ hi)
+    (k : Nat) (hk : k < shelf.length) (hkK : k ≤ K) :
+    ∀ r ∈ (stateAt (coolStep1D p g stride) shelf (coolInit1D p g) k).buf.toList,
+      Bdd1 (lo - lit 27315 2) (hi - lit 27315 2) r.temp := by
+  have h := stateAt_inv (coolStep1D p g stride)
+    (fun i s => i ≤ K + 1 → (Bdd1 lo hi s.T ∧ s.T.size = g.Nz) ∧
+      ∀ r ∈ s.buf.toList, Bdd1 (lo - lit 27315 2) (hi - lit 27315 2) r.temp) shelf (coolInit1D p g)
+    (fun _ => by
+      refine ⟨⟨?_, by simp [coolInit1D]⟩, by simp [coolInit1D]⟩
+      intro j hj
+      have hj' : j < g.Nz := by simpa [coolInit1D] using hj
+      simp only [coolInit1D, Snow.aget_replicate _ _ j hj', zero_real, zero_add]
+      exact h0)
+    (fun j hj s hs hle => by
+      have hsj := hs (by omega)
+      have hb := coolField1D_bdd p g hv j s.T (shelf[j]) lo hi hsj.1.2 hNz hfo hbi hsj.1.1 (hsh j hj (by omega))
+      refine ⟨by simpa [coolStep1D] using hb, ?_⟩
+      intro r hr
+      simp only [coolStep1D] at hr
+      split at hr
+      · unfold saveRow at hr
+        simp only [] at hr
+        split at hr
+        · simp only [Array.toList_push, List.mem_append, List.mem_singleton] at hr
+          rcases hr with hr | rfl
+          · exact hsj.2 r hr
+          · intro y hy
+            have hy' : y < (coolField1D p g j s.T shelf[j]).size := by simpa using hy
+            rw [Snow.aget_map _ _ y hy']
+            have := hb.1 y hy'
+            constructor <;> linarith [this.1, this.2]
+        · exact hsj.2 r hr
+      · exact hsj.2 r hr)
+    k hk
+  exact (h (by omega)).2
+
+/-- **`maxprinciple1D_published`** — what a completed 1D shelf run REPORTS: every temperature row of
+the published histories with index `< iSaveEnd` (cooling stage) lies in `[lo, hi]` (°C), where
+`[lo, hi]` contains `T_0` and the shelf temperatures applied up to the nucleation step. -/
+theorem maxprinciple1D_published (p : SnowIn ℝ) (Nz : Nat) (old : Bool) (shelf : List ℝ) (hv : p.visf = none)
+    (hNz : 2 ≤ (grid1D p Nz).Nz) (hfo : 0 ≤ (grid1D p Nz).fo ∧ (grid1D p Nz).fo ≤ 1 / 2)
+    (hbi : 0 ≤ p.Kshelf * (grid1D p Nz).dz / (grid1D p Nz).lam0
+        ∧ p.Kshelf * (grid1D p Nz).dz / (grid1D p Nz).lam0 ≤ 1)
+    (h : Array (Row ℝ)) (hh : (run1DOn p Nz old shelf).hist = some h) (iEnd : Nat)
+    (hiE : (run1DOn p Nz old shelf).NtCoolEnd = some iEnd) (lo hi : ℝ) (h0 : lo ≤ p.T_0 ∧ p.T_0 ≤ hi)
+    (hsh : ∀ j (hj : j < shelf.length), j ≤ iEnd → lo ≤ shelf[j] ∧ shelf[j] ≤ hi)
+    (k : Nat) (hk : k < (run1DOn p Nz old shelf).iSaveEnd) :
+    ∃ row, h[k]? = some row ∧ Bdd1 (lo - lit 27315 2) (hi - lit 27315 2) row.temp := by
+  revert hh hk hiE
+  unfold run1DOn
+  dsimp only
+  rcases hc : cool1D p (grid1D p Nz) old shelf with ⟨_ | iE, s⟩
+  · intro hh; simp at hh
+  · have hfirst := (loopUntil_first _ _ _ _ iE s).mp hc
+    dsimp only
+    by_cases hfit : s.buf.size < NSave
+    · rw [RunBounds.saveRow_fits' _ _ _ _ hfit]
+      dsimp only
+      split
+      · intro hh; simp at hh
+      · split
+        · intro hh; simp at hh
+        · split
+          · intro hh; simp at hh
+          · intro hh hiE hk
+            simp only [Option.some.injEq] at hh hiE
+            subst hh; subst hiE
+            have hrows := maxprinciple1D_cool_rows p (grid1D p Nz) (saveStride (grid1D p Nz).NtExp) hv hNz hfo hbi
+              shelf lo hi iE h0 hsh iE hfirst.1 (le_refl _)
+            rw [← hfirst.2.1] at hrows
+            have hlt : k < s.buf.size := hk
+            refine ⟨s.buf[k], ?_, hrows s.buf[k] (by simp)⟩
+            rw [Array.getElem?_append_left (by simp; omega), Array.getElem?_push_lt hlt]
+    · rw [RunBounds.saveRow_full' _ _ _ _ hfit]
+      intro hh; simp at hh
 
 /-- **`cfl_from_code_1D` for the model's grid**: `grid1D.fo = 0.4·α/α_max`, so `0 ≤ fo ≤ 1/2`
 whenever `0 ≤ α ≤ 1.25·α_max` -/
